@@ -272,6 +272,7 @@ func (s *state) doReturn(rs []Val, d *ssa.Return) {
 		oe.st = s
 		s.oblige("returns-only-if", "", u.ct.panicsIf.src, oe.evalBool(u.ct.panicsIf.e), d.Pos(), site, false)
 	}
+	u.covers = append(u.covers, &oblig{name: u.name() + "#cover." + site, kind: "cover", pc: append([]string(nil), s.pc...), goal: "false", clause: "return reachable", path: u.npaths})
 	for i, c := range u.ct.ensures {
 		e.what = fmt.Sprintf("%s ensures %q", u.name(), c.src)
 		sc := s.scratch()
@@ -284,7 +285,6 @@ func (s *state) doReturn(rs []Val, d *ssa.Return) {
 		s.pc = append(save, goal)
 	}
 	u.returns++
-	u.covers = append(u.covers, &oblig{name: u.name() + "#cover." + site, kind: "cover", pc: append([]string(nil), s.pc...), goal: "false", clause: "return reachable", path: u.npaths})
 	s.endPath()
 }
 
